@@ -29,7 +29,7 @@ RULE = (
 ASSUMPTIONS = [
     "rtol 1e-6 on gradients under the conditioning bound",
     "merged estimation is compared only when realizations are identical, or all samplers are shared and no perturbation of a contributing realization failed",
-    "stddev gradients are skipped when the standard deviation is < 1e-9",
+    "stddev gradients are skipped when the standard deviation is < 1e-7 (its derivative is undefined at zero; the library reports zeros within 1e-8 of zero)",
 ]
 COMPONENTS = {
     "real": ["_gradient.py (least squares, merged estimation)", "function estimators", "samplers (built-in)", "EnsembleEvaluator", "VariableScaler"],
